@@ -537,9 +537,7 @@ impl<P: Payload> World<P> {
             }
         }
         self.check_wf(&rows, opname, &mut out);
-        if !out.is_empty() {
-            return out;
-        }
+        let wf_failed = !out.is_empty();
         // model comparison: effect + frame
         let exp = self.m.expected_links();
         for (s, r) in rows.iter().enumerate() {
@@ -560,6 +558,9 @@ impl<P: Payload> World<P> {
                 }
                 return out;
             }
+        }
+        if wf_failed {
+            return out;
         }
         // payloads
         for (s, mn) in self.m.n.iter().enumerate() {
@@ -702,6 +703,26 @@ impl<P: Payload> World<P> {
             }
             if l.per_slot.len() <= slot {
                 l.per_slot.resize(slot + 1, Vec::new());
+            }
+            // the slot is live again: every earlier generation must still report removed
+            let hist = &l.per_slot[slot];
+            let nh = hist.len();
+            let mut idxs: Vec<usize> = (0..nh.min(3)).collect();
+            idxs.extend(nh.saturating_sub(3)..nh);
+            if nh > 6 {
+                idxs.push((crate::ir::splitmix(nh as u64) % nh as u64) as usize);
+            }
+            for i in idxs {
+                let old = hist[i];
+                let r = catch_unwind(AssertUnwindSafe(|| old.is_removed(&self.arena)));
+                if r.ok() != Some(true) {
+                    out.push(Failure::new(
+                        &["C06"],
+                        format!("{opname}/old-id-live-again"),
+                        format!("id {} was removed earlier; after its slot was recycled as {} it reports is_removed() == false", idg(old), idg(id)),
+                    ));
+                    break;
+                }
             }
             l.per_slot[slot].push(id);
         }
